@@ -18,6 +18,7 @@ type Env struct {
 	results []Term
 	pkg     *types.Package
 	bound   map[string]Term
+	margs   map[string]Arg // macro parameters bound to locations
 }
 
 type specErr struct{ msg string }
@@ -138,12 +139,22 @@ func (env *Env) lval(e ast.Expr) *Loc {
 	case *ast.ParenExpr:
 		return env.lval(e.X)
 	case *ast.Ident:
-		if a, ok := env.vars[e.Name]; ok && a.loc != nil {
+		if a, ok := env.lookupVar(e.Name); ok && a.loc != nil {
 			return a.loc
+		}
+		if _, isB := env.bound[e.Name]; isB {
+			return nil
+		}
+		if _, isVar := env.vars[e.Name]; !isVar && env.pkg != nil {
+			if o := env.pkg.Scope().Lookup(e.Name); o != nil {
+				if v, ok := o.(*types.Var); ok && !isStruct(v.Type()) {
+					return g.globalLoc(v)
+				}
+			}
 		}
 	case *ast.StarExpr:
 		if id, ok := e.X.(*ast.Ident); ok {
-			if a, ok := env.vars[id.Name]; ok {
+			if a, ok := env.lookupVar(id.Name); ok {
 				if a.loc != nil {
 					return a.loc
 				}
@@ -161,7 +172,7 @@ func (env *Env) lval(e ast.Expr) *Loc {
 		var baseLoc *Loc
 		var baseT types.Type
 		if id, ok := e.X.(*ast.Ident); ok {
-			if a, ok := env.vars[id.Name]; ok && a.loc != nil {
+			if a, ok := env.lookupVar(id.Name); ok && a.loc != nil {
 				baseLoc, baseT = a.loc, a.loc.typ
 			}
 		}
@@ -323,6 +334,12 @@ func (env *Env) tr(e ast.Expr) Term {
 		if t, ok := env.bound[e.Name]; ok {
 			return t
 		}
+		if a, ok := env.margs[e.Name]; ok {
+			if isStruct(a.loc.typ) {
+				return Term{g.read(env.st, a.loc), g.d.sortOf(a.loc.typ), a.loc.typ}
+			}
+			cerr("pointer %s is a location", e.Name)
+		}
 		if a, ok := env.vars[e.Name]; ok {
 			if a.loc != nil {
 				if isStruct(a.loc.typ) {
@@ -336,11 +353,15 @@ func (env *Env) tr(e ast.Expr) Term {
 		if s, ok := g.specs.consts[e.Name]; ok {
 			return Term{e.Name, s, sortType(s)}
 		}
-		// package-level constant
+		// package-level constant or variable
 		if env.pkg != nil {
 			if o := env.pkg.Scope().Lookup(e.Name); o != nil {
 				if c, ok := o.(*types.Const); ok {
 					return g.goConst(c)
+				}
+				if v, ok := o.(*types.Var); ok {
+					l := g.globalLoc(v)
+					return Term{g.read(env.st, l), g.d.sortOf(v.Type()), v.Type()}
 				}
 			}
 		}
@@ -740,6 +761,37 @@ func (env *Env) call(e *ast.CallExpr) Term {
 		_, has, _, _, _ := g.mapComps(mt)
 		return boolT(fmt.Sprintf("(and (not (= %s 0)) (select (select %s %s) %s))", m.S, g.get(env.st, has), m.S, k.S))
 	}
+	if env.pkg != nil {
+		if m, ok := macros[relPkg(env.pkg.Path())+"."+name]; ok {
+			if len(e.Args) != len(m.Params) {
+				cerr("macro %s expects %d arguments", name, len(m.Params))
+			}
+			n := *env
+			n.bound = map[string]Term{}
+			for k, v := range env.bound {
+				n.bound[k] = v
+			}
+			n.margs = map[string]Arg{}
+			for k, v := range env.margs {
+				n.margs[k] = v
+			}
+			for k, a := range e.Args {
+				// pointer arguments bound to locations stay locations
+				if id, ok := a.(*ast.Ident); ok {
+					if v, ok := env.vars[id.Name]; ok && v.loc != nil {
+						n.margs[m.Params[k]] = v
+						continue
+					}
+					if v, ok := env.margs[id.Name]; ok {
+						n.margs[m.Params[k]] = v
+						continue
+					}
+				}
+				n.bound[m.Params[k]] = env.tr(a)
+			}
+			return n.tr(m.Body)
+		}
+	}
 	if sf, ok := g.specs.funcs[name]; ok {
 		var as []string
 		if len(e.Args) != len(sf.params) {
@@ -789,7 +841,7 @@ func (g *Gen) modLocs(env *Env, m *Clause) []modLoc {
 			x := env.tr(c.Args[0])
 			mt := types.Unalias(x.T).Underlying().(*types.Map)
 			v, h, l, _, _ := g.mapComps(mt)
-			return []modLoc{{whole: v}, {whole: h}, {whole: l}}
+			return []modLoc{{whole: v, exceptRef: x.S}, {whole: h, exceptRef: x.S}, {whole: l, exceptRef: x.S}}
 		}
 	}
 	l := env.lval(m.Expr)
@@ -837,4 +889,22 @@ func (g *Gen) modCompByShape(c *Contract, m *Clause, comps map[string]bool) bool
 		}
 	}()
 	return ok
+}
+
+func (g *Gen) globalLoc(v *types.Var) *Loc {
+	comp := "G$" + sanitize(relPkg(v.Pkg().Path())+"."+v.Name())
+	es := g.d.sortOf(v.Type())
+	g.compDecl(comp, "(Array Int "+es+")")
+	return &Loc{kind: "cell", ref: "0", comp: comp, rsort: es, rtype: v.Type(), typ: v.Type()}
+}
+
+func (env *Env) lookupVar(name string) (Arg, bool) {
+	if a, ok := env.margs[name]; ok {
+		return a, true
+	}
+	if _, ok := env.bound[name]; ok {
+		return Arg{}, false
+	}
+	a, ok := env.vars[name]
+	return a, ok
 }
